@@ -198,6 +198,9 @@ def run_check(prop, tier, seed):
     t0 = time.time()
     plan = PLANS[prop]
     jobs = [j for j in plan if tier in j.get("tiers", ("quick", "thorough"))]
+    only = os.environ.get("VERIF_ONLY_MODES")  # selftest speed-up; never set by the registered commands
+    if only:
+        jobs = [j for j in jobs if j["mode"] in only.split(",")]
     modes = sorted(set((j["mode"], j.get("bin", "lruverif")) for j in jobs))
     os.makedirs(EVID, exist_ok=True)
     os.makedirs(REPLAYS, exist_ok=True)
